@@ -359,15 +359,15 @@ PROPS = {
         tables=[],
         determined=True,
         projection_determined=lambda case, reply: c17_projection(case, reply),
-        technique="Lean 4 theorems by mutual induction over values: to_value(&value) = value with 64-bit integer literals re-rendered (model of Serialize for Value/Object/Number composed with the serializer model), and from_value::<Value>(value) = value with every number passed through json-number's visitor dispatch (model of Deserialize for Value driven by Deserializer for Value); both models tied to the real code by correspondence; serde_json text route and float values by direct oracles with class-predicate known findings",
+        technique="Lean 4 theorems by mutual induction over values: to_value(&value) = value with 64-bit integer literals re-rendered (model of Serialize for Value/Object/Number composed with the serializer model), and from_value::<Value>(value) = value with every number passed through the visitor dispatch u64 / i64 / f64 (model of Deserialize for Value driven by Deserializer for Value); both models tied to the real code by correspondence; serde_json text route and float values by direct oracles with class-predicate known findings",
         level_text=("Proved in Lean. Serialization (C17_serialize): for every value whose numbers are JSON numbers, without duplicate keys and without the private number token as a key, serializing it with the crate's own serializer returns the same structure, strings and key order, "
                     "every number byte-for-byte except plain 64-bit integer literals which are re-rendered from the integer (-0 loses its sign); C17_number_verbatim (fraction / exponent / beyond 64 bits: exact spelling — the latter two since a fix: commit); "
                     "kernel-checked witnesses for the duplicate-key collapse (first position, last value) and for the number-token key (a recorded known finding). "
-                    "Deserialization (C17_deserialize): for every value in which no object has duplicate keys or starts with the private number token, from_value::<Value> returns the same structure, strings and key order with every number passed through json-number's deserialize_any; C17_numbers_same_integer: a number read as u64 (i64) comes back as a text read as the same u64 (i64), every other number becomes lexical's text of the double it is parsed to (a parameter of the model: the >19-significant-digit one-ulp class named in the property is a known finding there) or null when that double is not finite; C17_magic_key_deserialize (number-token-first objects are read as numbers or rejected: same known finding). "
+                    "Deserialization (C17_deserialize): for every value in which no object has duplicate keys or starts with the private number token, from_value::<Value> returns the same structure, strings and key order with every number passed through the number dispatch of src/serde/de.rs; C17_numbers_same_integer: a number read as u64 (i64) comes back as a text read as the same u64 (i64), every other number becomes the text of the double it is parsed to — since the fix: commit 729bd83 the dispatch (u64, i64, str::parse::<f64>) is /repo's own code in src/serde/de.rs and the double is the correctly rounded one, so the >19-significant-digit one-ulp class named in the property is REPAIRED, not carried (the float conversion stays a parameter of the model, evaluated by the harness with std directly) — or null when that double is not finite; C17_magic_key_deserialize (number-token-first objects are read as numbers or rejected: same known finding). "
                     "Both models are run against the real code on every value generated (to_value, from_value::<Value>, including mutated and token-carrying objects). serde_json::from_str::<Value> (the ValueVisitor driven by serde_json's deserializer) is decided by direct oracle only."),
         level_note="Trusted: Lean kernel; str::parse::<i64/u64> = String.toInt?/toNat? with range check on number texts; i64/u64 to_string = Lean's toString; json-number, lexical (float conversions are a parameter of the model evaluated by the harness), serde_json for the text route.",
         rule="request = a Value (to_value / from_value::<Value>), reply = the value built or the error class. Non-trivial = successful; distinct request lines; oracle_only_cases counts the serde_json text-route cases the model does not cover",
-        strength="serialization and Value-to-Value deserialization proved on the model; float values (lexical) and the serde_json text route by oracle with known-finding classes",
+        strength="serialization and Value-to-Value deserialization proved on the model; float values (std parse / ryu printing: parameter) and the serde_json text route by oracle; one known-finding class left (number-token key)",
         trusted_base=COMMON_TRUST + ["json-number / lexical float conversions (parameter of the model)", "serde_json (text route)"],
         assumptions=[],
     ),
